@@ -389,6 +389,9 @@ class DiscreteFactor(BaseFactor, StateNameMixin):
         phi.del_state_names(variables)
 
         phi.values = compat_fns.einsum(phi.values, range(n_variables), index_to_keep)
+        if isinstance(phi.values, np.generic):
+            # the whole scope was summed out: keep a 0-d array, not a numpy scalar
+            phi.values = np.asarray(phi.values)
 
         if not inplace:
             return phi
@@ -445,6 +448,8 @@ class DiscreteFactor(BaseFactor, StateNameMixin):
         phi.cardinality = phi.cardinality[index_to_keep]
         phi.del_state_names(variables)
         phi.values = compat_fns.max(phi.values, axis=tuple(var_indexes))
+        if isinstance(phi.values, np.generic):
+            phi.values = np.asarray(phi.values)
 
         if not inplace:
             return phi
@@ -491,6 +496,8 @@ class DiscreteFactor(BaseFactor, StateNameMixin):
         phi = self if inplace else self.copy()
 
         phi.values = phi.values / (phi.values.sum())
+        if isinstance(phi.values, np.generic):
+            phi.values = np.asarray(phi.values)
 
         if not inplace:
             return phi
@@ -573,6 +580,8 @@ class DiscreteFactor(BaseFactor, StateNameMixin):
         phi.del_state_names([var for var, _ in values])
 
         phi.values = phi.values[tuple(slice_)]
+        if isinstance(phi.values, np.generic):
+            phi.values = np.asarray(phi.values)
 
         if not inplace:
             return phi
@@ -661,6 +670,8 @@ class DiscreteFactor(BaseFactor, StateNameMixin):
                 phi1.values = phi1.values.swapaxes(axis, exchange_index)
 
             phi.values = phi.values + phi1.values
+            if isinstance(phi.values, np.generic):
+                phi.values = np.asarray(phi.values)
 
         if not inplace:
             return phi
@@ -722,6 +733,8 @@ class DiscreteFactor(BaseFactor, StateNameMixin):
                 [var_to_int[var] for var in phi1.variables],
                 range(len(new_variables)),
             )
+            if isinstance(phi.values, np.generic):
+                phi.values = np.asarray(phi.values)
 
             # Compute the new cardinality array
             phi_card = {var: card for var, card in zip(phi.variables, phi.cardinality)}
